@@ -26,9 +26,30 @@ fn e_src(t: &mut Toks) -> String {
     _ => { let o = t.next(); let a = e_src(t); let b = e_src(t); format!("{} {} {}", a, op_src(o), b) }
   }
 }
+/// a state argument: `arr k E*`, `whole x`, or a scalar expression
+fn ae_src(t: &mut Toks) -> String {
+  match t.t[t.i] {
+    "arr" => { t.next(); let k: usize = t.next().parse().unwrap(); let es: Vec<String> = (0..k).map(|_| e_src(t)).collect(); format!("[{}]", es.join(" ")) }
+    "whole" => { t.next(); t.next().to_string() }
+    _ => e_src(t),
+  }
+}
+/// a payload pattern: `A<pre>|<0/1>|<suf>` or a scalar pattern
+fn p_src(tok: &str) -> String {
+  if let Some(r) = tok.strip_prefix('A') {
+    let p: Vec<&str> = r.split('|').collect();
+    let items = |t: &str| -> Vec<String> { if t.is_empty() { vec![] } else { t.split(',').map(sp_src).collect() } };
+    let mut parts = items(p[0]); if p[1] == "1" { parts.push("…".to_string()); } parts.extend(items(p[2]));
+    format!("[{}]", parts.join(" "))
+  } else { sp_src(tok) }
+}
+fn arg_src(tok: &str) -> String {
+  let p: Vec<&str> = tok.split(':').collect();
+  if p[0] == "a" { format!("[{}]", p[2].split(';').map(|v| if p[1] == "u64" { format!("{}u64", v) } else { v.to_string() }).collect::<Vec<_>>().join(" ")) } else { s_src(tok) }
+}
 fn target_src(t: &mut Toks) -> String {
   match t.next() {
-    "next" => { let name = t.next(); let k: usize = t.next().parse().unwrap(); let args: Vec<String> = (0..k).map(|_| e_src(t)).collect(); format!("-> :{}({})", name, args.join(", ")) }
+    "next" => { let name = t.next(); let k: usize = t.next().parse().unwrap(); let args: Vec<String> = (0..k).map(|_| ae_src(t)).collect(); format!("-> :{}({})", name, args.join(", ")) }
     _ => format!("=> {}", e_src(t)),
   }
 }
@@ -40,20 +61,21 @@ pub fn source(case: &str) -> String {
   let mut src = format!("{} => <{}>\n", sig, f[3]);
   let decl: Vec<&str> = f[4].split(',').collect();
   for (i, d) in decl.iter().enumerate() {
-    let (n, k) = d.split_once(':').unwrap(); let k: usize = k.parse().unwrap();
-    let vars: Vec<String> = (0..k).map(|j| format!("p{}<u64>", j)).collect();
+    let dp: Vec<&str> = d.split(':').collect(); let n = dp[0]; let k: usize = dp[1].parse().unwrap();
+    let mask: Vec<char> = dp.get(2).map(|m| m.chars().collect()).unwrap_or_default();
+    let vars: Vec<String> = (0..k).map(|j| if mask.get(j) == Some(&'a') { format!("p{}<[u64]>", j) } else { format!("p{}<u64>", j) }).collect();
     src.push_str(&format!("  {} :{}({}){}\n", if i + 1 == decl.len() { "└" } else { "├" }, n, vars.join(", "), if i + 1 == decl.len() { "." } else { "" }));
   }
   let mut st = Toks::new(f[5]);
   let sname = st.next(); let k: usize = st.next().parse().unwrap();
-  let sargs: Vec<String> = (0..k).map(|_| e_src(&mut st)).collect();
+  let sargs: Vec<String> = (0..k).map(|_| ae_src(&mut st)).collect();
   src.push_str(&format!("{} -> :{}({})\n", sig, sname, sargs.join(", ")));
   let arms: Vec<&str> = f[6].split(";;").collect();
   for (ai, a) in arms.iter().enumerate() {
     let last_arm = ai + 1 == arms.len();
     let mut t = Toks::new(a);
     let name = t.next(); let k: usize = t.next().parse().unwrap();
-    let pats: Vec<String> = (0..k).map(|_| sp_src(t.next())).collect();
+    let pats: Vec<String> = (0..k).map(|_| p_src(t.next())).collect();
     let head = format!("  :{}({})", name, pats.join(", "));
     match t.next() {
       "d" => { src.push_str(&format!("{} {}{}\n", head, target_src(&mut t), if last_arm { "." } else { "" })); }
@@ -68,7 +90,7 @@ pub fn source(case: &str) -> String {
       }
     }
   }
-  let args: Vec<String> = if f[7] == "-" { vec![] } else { f[7].split(',').map(s_src).collect() };
+  let args: Vec<String> = if f[7] == "-" { vec![] } else { f[7].split(',').map(arg_src).collect() };
   src.push_str(&format!("#Mach({})", args.join(", ")));
   src
 }
@@ -80,6 +102,8 @@ fn state_text(msg: &str) -> String {
   let mut name = String::new(); let mut vals = vec![];
   for t in toks {
     if let Some(r) = t.strip_prefix(':') { name = r.split('(').next().unwrap_or("").to_string(); }
+    // an array field prints as `[u64]:1,2(MatrixU64(RowDVector(@0x…: VecSto…)`: kind and shape only
+    else if t.starts_with('[') { if let Some((k, r)) = t[1..].split_once("]:") { let shape = r.split('(').next().unwrap_or(""); vals.push(format!("a:{}:{}", k, shape.replace(',', "x"))); } }
     else if let Some((_, r)) = t.split_once("(@") { if let Some((_, v)) = r.trim_end_matches(')').split_once(':') { vals.push(v.to_string()); } }
   }
   format!("{}:{}", name, vals.join(","))
@@ -104,7 +128,8 @@ pub fn generate(seed: u64, thorough: bool, sink: &mut Sink) -> Vec<String> {
   let n = if thorough { 25000 } else { 2500 };
   let names = ["Alpha", "Beta", "Gamma", "Delta"];
   let pvars = ["x", "y", "z"];
-  for _ in 0..n {
+  for it in 0..n {
+    if it % 4 == 3 { cases.push(gen_array_machine(&mut rng, sink)); continue; }
     let ninputs = 1 + rng.below(2) as usize;
     let inputs: Vec<&str> = ["a", "b"][..ninputs].to_vec();
     let nstates = 1 + rng.below(4) as usize;
@@ -170,4 +195,54 @@ pub fn generate(seed: u64, thorough: bool, sink: &mut Sink) -> Vec<String> {
     cases.push(case);
   }
   cases
+}
+
+/// a machine whose states carry an array: `Walk(arr, n)` revisited while a counter runs down, with array
+/// patterns `[x … y]`, `[x …]`, `[… y]`, `[a b]`, `[a … b c]`, literals inside, a whole-value variable or
+/// a wildcard; the next array is built from the variables the pattern bound (so what an earlier visit
+/// bound would be seen if it were not cleared), and `Done` returns an expression over them
+fn gen_array_machine(rng: &mut Rng, sink: &mut Sink) -> String {
+  let len = 2 + rng.below(3) as usize;                       // length of the input array
+  let vals: Vec<i64> = (0..len).map(|_| rng.range(0, 5)).collect();
+  let narms = 1 + rng.below(3) as usize;
+  let mut arms: Vec<String> = vec![];
+  let names = ["x", "y", "z", "w"];
+  let ill = rng.below(12);                                    // 0: array argument of the wrong kind, 1: scalar where the array is declared
+  for ai in 0..narms {
+    // pattern over an array of length `len` (the arrays the arms build keep the length, mostly)
+    let shape = rng.below(8);
+    let mut bound: Vec<&str> = vec![];
+    let mut item = |rng: &mut Rng, bound: &mut Vec<&str>, j: usize| -> String {
+      // (a wildcard inside an array pattern does not parse at this commit)
+      if rng.chance(1, 7) { nu(rng.range(0, 3)) } else { let nm = names[j % 4]; if !bound.contains(&nm) { bound.push(nm); } format!("${}", nm) } };
+    let (pat, whole): (String, bool) = match shape {
+      0 => { let a = item(rng, &mut bound, 0); let b = item(rng, &mut bound, 1); (format!("A{}|1|{}", a, b), false) }
+      1 => { let a = item(rng, &mut bound, 0); (format!("A{}|1|", a), false) }
+      2 => { let b = item(rng, &mut bound, 1); (format!("A|1|{}", b), false) }
+      3 => { let its: Vec<String> = (0..len).map(|j| item(rng, &mut bound, j)).collect(); (format!("A{}|0|", its.join(",")), false) }
+      4 => { let a = item(rng, &mut bound, 0); let b = item(rng, &mut bound, 1); let c = item(rng, &mut bound, 2); (format!("A{}|1|{},{}", a, b, c), false) }
+      5 => { let a = item(rng, &mut bound, 0); let b = item(rng, &mut bound, 1); (format!("A{},{}|1|", a, b), false) }
+      6 => ("$v".to_string(), true),
+      _ => { let a = item(rng, &mut bound, 1); let b = item(rng, &mut bound, 0); (format!("A{}|1|{}", a, b), false) }   // the same names in the other order
+    };
+    let cnt = if ai + 1 == narms || rng.chance(2, 3) { "$n".to_string() } else { nu(rng.range(0, 2)) };
+    let sc_atom = |rng: &mut Rng, bound: &Vec<&str>| -> String { if bound.is_empty() || rng.chance(1, 4) { format!("lit {}", nu(rng.range(0, 3))) } else { format!("var {}", rng.pick(bound)) } };
+    // the next array
+    let next_arr = if whole { "whole v".to_string() } else if rng.chance(1, 6) { "whole xs".to_string() } else {
+      let k = if rng.chance(3, 4) { len } else { 1 + rng.below(4) as usize };
+      let es: Vec<String> = (0..k).map(|_| sc_atom(rng, &bound)).collect(); format!("arr {} {}", k, es.join(" ")) };
+    let fin = if bound.is_empty() { format!("lit {}", nu(7)) } else if rng.chance(1, 2) { format!("var {}", rng.pick(&bound)) } else { format!("bin add {} {}", sc_atom(rng, &bound), sc_atom(rng, &bound)) };
+    let body = if cnt == "$n" {
+      format!("g 2 c bin gt var n lit {} next Walk 2 {} bin sub var n lit {} * next Done 1 {}", nu(0), next_arr, nu(1), fin)
+    } else { format!("d next Done 1 {}", fin) };
+    arms.push(format!("Walk 2 {} {} {}", pat, cnt, body));
+    sink.hit(&format!("array-pattern:{}", shape));
+  }
+  arms.push("Done 1 $out d out var out".to_string());
+  let start = format!("Walk 2 whole xs lit {}", nu(rng.range(0, 4)));
+  let arg = match ill { 0 => format!("a:f64:{}", vals.iter().map(|v| v.to_string()).collect::<Vec<_>>().join(";")), 1 => nu(3), _ => format!("a:u64:{}", vals.iter().map(|v| v.to_string()).collect::<Vec<_>>().join(";")) };
+  sink.hit(match ill { 0 => "ill:array-kind", 1 => "ill:scalar-for-array", _ => "array-machine" });
+  let maxsteps = *rng.pick(&[5usize, 12, 40]);
+  let case = format!("fsm\t{}\txs:[u64]\tu64\tWalk:2:as,Done:1\t{}\t{}\t{}", maxsteps, start, arms.join(";;"), arg);
+  case
 }
